@@ -287,7 +287,7 @@ func boolKeys(m map[string]string) map[string]bool {
 	return out
 }
 
-var wholeRecvRx = regexp.MustCompile(`\*⟦\.ReceiverName⟧ = (result|rcv)\b`)
+var wholeRecvRx = regexp.MustCompile(loosen(`\*⟦\.ReceiverName⟧ = (result|rcv)\b`))
 var partialRecvRx = regexp.MustCompile(`⟦\.ValueExpression⟧(\[[a-z]+\])? = `)
 
 // checkReceiverAssignmentOrder: within one generated function, `*m = result` comes before any
@@ -333,8 +333,7 @@ func checkReceiverAssignmentOrder(c *Ctx, ev *tmpl.Evaluator) {
 	}
 }
 
-var toaddDeclRx = regexp.MustCompile(`var toadd `)
-var toaddUseRx = regexp.MustCompile(`(json\.Unmarshal\(v, |dec\.Decode\()(⟦[^⟧]*⟧)?&?(⟦[^⟧]*⟧)?toadd\)`)
+var decodeIntoRx = regexp.MustCompile(`(?:json\.Unmarshal\(\w+, |\w+\.Decode\()(?:⟦[^⟧]*⟧)?&?(?:⟦[^⟧]*⟧)?(\w+)\)`)
 var forRx = regexp.MustCompile(`\n\s*for [^\n]*\{`)
 
 // checkDecoders: decoders that may fill untyped values keep numbers exact (UseNumber on every
@@ -356,28 +355,35 @@ func checkDecoders(c *Ctx, ev *tmpl.Evaluator, gen *packages.Package) {
 		c.Check(nd > 0 && nd == nu, rule, "template "+tn+" › every json.NewDecoder uses UseNumber", l.Tree.File, fmt.Sprintf("%d decoders", nd),
 			fmt.Sprintf("%d json.NewDecoder calls but %d UseNumber calls: untyped values decoded without UseNumber turn integers beyond 2^53 into float64 and lose digits", nd, nu))
 	}
+	nTargets := 0
 	for _, tn := range []string{"additionalPropertiesSerializer", "hasDiscriminatedSerializer", "tupleSerializer"} {
 		l := linearOf(c, ev, tn)
 		if l == nil {
 			continue
 		}
 		k := 0
-		for _, use := range toaddUseRx.FindAllStringIndex(l.Text, -1) {
-			k++
+		for _, use := range decodeIntoRx.FindAllStringSubmatchIndex(l.Text, -1) {
+			v := l.Text[use[2]:use[3]]
+			declRx := regexp.MustCompile(`var ` + regexp.QuoteMeta(v) + ` `)
 			lastDecl, lastFor := -1, -1
-			for _, d := range toaddDeclRx.FindAllStringIndex(l.Text[:use[0]], -1) {
+			for _, d := range declRx.FindAllStringIndex(l.Text[:use[0]], -1) {
 				lastDecl = d[0]
 			}
 			for _, f := range forRx.FindAllStringIndex(l.Text[:use[0]], -1) {
 				lastFor = f[0]
 			}
-			ok := lastDecl > lastFor && lastFor >= 0
-			c.Check(ok, rule, fmt.Sprintf("template %s › additional value #%d decoded into a per-iteration variable", tn, k), l.Tree.PosStr(l.PosAt(use[0])), "var toadd declared inside the loop",
-				"the variable additional values are decoded into is declared outside the loop: encoding/json reuses its backing arrays and keeps fields of the previous entry, so entries alias or inherit each other's data")
+			// only decodes that sit in a loop of the generated code, into a variable declared with `var`
+			if lastDecl < 0 || lastFor < 0 || strings.Count(l.Text[lastFor:use[0]], "{") <= strings.Count(l.Text[lastFor:use[0]], "}") {
+				continue
+			}
+			k++
+			nTargets++
+			c.Check(lastDecl > lastFor, rule, fmt.Sprintf("template %s › loop decode #%d into a per-iteration variable", tn, k), l.Tree.PosStr(l.PosAt(use[0])), "`var "+v+"` declared inside the loop",
+				"the variable `"+v+"` that loop values are decoded into is declared outside the loop: encoding/json reuses its backing arrays and keeps fields of the previous entry, so entries alias or inherit each other's data")
 		}
-		if k == 0 {
-			c.Unk(rule, "template "+tn+" › additional value decoding", l.Tree.File, "no decode into `toadd` found (anchor)")
-		}
+	}
+	if nTargets < 3 {
+		c.Unk(rule, "serializer templates › loop decodes", "", fmt.Sprintf("%d decodes into `var` variables inside loops found, expected at least 3", nTargets))
 	}
 	// named tuple members in item order
 	info := gen.TypesInfo
